@@ -641,7 +641,12 @@ fn exec(mode: Mode, case: &Case, ctx: &Ctx) {
                                 .or_else(|| fwd.iter().rev().find(|a| a.3 == "oversize-datagram"))
                                 .or(fwd.last())
                                 .copied();
-                            let class = last.map(|a| a.3.clone()).unwrap_or_else(|| "no-forwardable-attack-frame".into());
+                            let class = if c.ever_stalled {
+                                // the victim paused reading for at most 300 ms (write timeout: 2 s) while being flooded
+                                "flood-while-briefly-not-reading".to_string()
+                            } else {
+                                last.map(|a| a.3.clone()).unwrap_or_else(|| "no-forwardable-attack-frame".into())
+                            };
                             ctx.violate(
                                 format!("victim-disconnected:{class}"),
                                 format!("connection {ci} of ident {v} was ended by the relay at #{e}; last attacker frame addressed to it: {last:?}"),
